@@ -33,7 +33,12 @@ CLAIM = dict(
     note="OpenCV's INTER_AREA kernel is a contract (box mean when shrinking, replication for integer enlargement), tied by "
     "exact comparison for power-of-two factors and 1e-6 relative otherwise (OpenCV computes area weights in float32); "
     "numpy float64 arithmetic is exact on the dyadic stream.",
-    limits="normalize (Geometry.normalize + darsia.weight float / ndarray-ratio branches) is tied by the `norm` request (values within 1e-12); "
+    limits="KNOWN DEFECT inside the quantifier: geometries with ARRAY weights in 1-D and 3-D raise ValueError for data at any non-native resolution "
+    "(Geometry.integrate supports the conservative resize in 2-D only; reported as KNOWN-FINDING on every run). The resolution theorems "
+    "spec_array_*_nd hold in any dimension for the SPECIFICATION specAt; `step` returns these values only where the code does not raise "
+    "(scalar volumes any dimension, array volumes 2-D; integrate_resolution_indep). integrate_fresh_eq_spec is a definitional unfolding for scalar "
+    "volumes (content: array volumes, cache invariant). The refresh=false model and stale_cache_history_dependent describe the code BEFORE the "
+    "first fix (historical, untied). normalize (Geometry.normalize + darsia.weight float / ndarray-ratio branches) is tied by the `norm` request (values within 1e-12); "
     "resolution independence of ARRAY volumes: spec_array_mixed_nd covers every per-axis combination of integer coarsening / refinement in any "
     "dimension; non-integer factors (effVol_total, "
     "integrate_fresh_eq_spec hold for them in the model) are not tied; data with another number of axes than the geometry are outside the model "
@@ -360,9 +365,15 @@ def check_history(ctx, d, g, hist, labels, exact, where):
                      {"check": "history", "geo": g, "history": hist, "labels": labels, "call": n, "on_object": a, "fresh": b})
             break
         if exp_err is not None:
-            if b != exp_err:
-                ctx.fail(f"C03:integrate:array-volume-foreign-resolution(dim={g['dim']}):expected-ValueError", f"got {b}",
-                         {"check": "error", "geo": g, "history": [dat], "labels": labels[n], "fresh": b})
+            # INSIDE the quantifier (array weights in 1-D / 3-D, integer factors) but the code raises: a genuine, known defect
+            want = fmts(integral_exact(g, dat))
+            if b == exp_err:
+                ctx.fail(f"C03:integrate:array-volume:foreign-resolution:dim={g['dim']}:raises-ValueError",
+                         f"integrate on a fresh {g['kind']} geometry with an array weight raises ValueError for data of shape {dat['shape']} (native {g['nv']}); "
+                         f"the weighted voxel sum is {want}", {"check": "spec", "geo": g, "history": [dat], "labels": labels[n], "fresh": b, "exact": want})
+            elif not close(b, want, exact):
+                ctx.fail(f"C03:integrate:array-volume:foreign-resolution:dim={g['dim']}:wrong-value", f"got {b}, weighted voxel sum {want}",
+                         {"check": "spec", "geo": g, "history": [dat], "labels": labels[n], "fresh": b, "exact": want})
             continue
         want = fmts(integral_exact(g, dat))
         if not close(b, want, exact):
